@@ -23,8 +23,8 @@ Proof. exact gev_component. Qed.
 Theorem C14_htlc_is_local : forall w g rq sel,
   match gclassify w rq with
   | KTramp h t =>
-      get_comp (fst (gstep w g (GHtlc rq) sel)) h = fst (step (w_cfg w) (get_comp g h) (EvHtlc (htlc_of rq t))) /\
-      snd (gstep w g (GHtlc rq) sel) = map (lift_out h) (snd (step (w_cfg w) (get_comp g h) (EvHtlc (htlc_of rq t)))) /\
+      get_comp (fst (gstep w g (GHtlc rq) sel)) h = fst (step_htlc (w_cfg w) (get_comp g h) (htlc_of rq t) sel) /\
+      snd (gstep w g (GHtlc rq) sel) = map (lift_out h) (snd (step_htlc (w_cfg w) (get_comp g h) (htlc_of rq t) sel)) /\
       forall h', h <> h' -> get_comp (fst (gstep w g (GHtlc rq) sel)) h' = get_comp g h'
   | _ => fst (gstep w g (GHtlc rq) sel) = g
   end.
